@@ -226,15 +226,21 @@ def report(all_muts, results):
               "| check | mutants it was first to notice |", "|---|---|"]
     for k in sorted(cnt):
         lines.append(f"| {k} | {cnt[k]} |")
-    notes = {}
+    rules = []
     nf = os.path.join(HERE, "automut_notes.json")
     if os.path.exists(nf):
-        notes = json.load(open(nf))
+        rules = json.load(open(nf)).get("rules", [])
+    def note(r):
+        key = f"{r['file']}:{r['line']}"
+        for pat, text in rules:
+            if re.search(pat, key):
+                return text
+        return "**unexplained**"
     for k, title in [("survived", "Mutants no check noticed and the repository's tests pass with"), ("tests_only", "Mutants no check noticed but the repository's own tests catch")]:
         lines += ["", f"## {title}", "", "| file:line | operator | original | mutated | explanation |", "|---|---|---|---|---|"]
         for r in sorted(by.get(k, []), key=lambda r: (r["file"], r["line"], r["col"])):
             esc = lambda s: s.strip().replace("|", "\\|")
-            lines.append(f"| {r['file']}:{r['line']} | {r['op']} | `{esc(r['old'])}` | `{esc(r['new'])}` | {notes.get(r['id'], '')} |")
+            lines.append(f"| {r['file']}:{r['line']} | {r['op']} | `{esc(r['old'])}` | `{esc(r['new'])}` | {note(r)} |")
     open(os.path.join(HERE, "AUTOMUT.md"), "w").write("\n".join(lines) + "\n")
 
 def main():
